@@ -385,7 +385,7 @@ class Gen:
             s = self.r.choice([c for c in self.comps if c[0] == src])
             d = self.r.choice([c for c in self.comps if c[0] == dst])
             op["src_strata"] = list(s[1])
-            op["dst_strata"] = list(d[1])
+            op["dst_strata"] = list(reversed(d[1]))      # (a filter is a dict: the order of its keys carries no meaning)
             self.count("flow:cross_strata")
         elif keys_dst == keys_src:
             op["src_strata"] = fs
@@ -394,7 +394,7 @@ class Gen:
             # ends stratified differently: only full filters give 1:1
             s = self.r.choice([c for c in self.comps if c[0] == src])
             d = self.r.choice([c for c in self.comps if c[0] == dst])
-            op["src_strata"] = list(s[1])
+            op["src_strata"] = list(reversed(s[1]))
             op["dst_strata"] = list(d[1])
 
     # ------------------------------------------------------------------ stratifications
